@@ -41,6 +41,7 @@
 -/
 import PsutilModel.Proofs.C02
 import PsutilModel.Proofs.C01Hid
+import PsutilModel.Proofs.C02Rdb
 import PsutilModel.Proofs.C02Fault
 import PsutilModel.Spec.C02Fault
 import PsutilModel.Proofs.C02Stat
@@ -640,6 +641,74 @@ theorem C02_unknown_start_counterexample :
   · intro H
     have := H 1000 (by decide) witnessUnknownThenKnown hok 0 _ h0
     revert this; decide
+
+/-! ## What the property DOES promise when stat files may be unreadable (seeded round 5, C02-7)
+
+`C02_unknown_start_counterexample` shows which "iff"s are lost once an object can be built blind (`_ident = (pid, None)`).
+It does not make such objects lawless: the clauses below are statements of the property ("False ever after, even when
+the PID is alive again under a new process", "equal objects hash alike", "not on any other psutil call made in between")
+and hold over ALL histories with `hide` events anywhere (`HistOKb`: in particular while a `Process` object is being
+built), for EVERY object — known start or `(pid, None)` — with ANY calls in between (`create_time()`, `is_running()`,
+`process_iter()`, `as_dict`, …).  `StatOpens` (Spec/C01.lean) is an input of the kernel: the PID is free, or its holder's
+stat file opens right now.  They rest on the model's "nothing rewrites `_ident` after construction", which is the
+obligation `cfg_identity_shape` (fact `identityStores`). -/
+
+/-- **C02_not_running_after_gone_readable.**  After ANY history in which stat files may be unreadable at any point
+    (`HistOKb`), for EVERY object: when the incarnation the object was built for has left the process table and
+    `/proc/pid/stat` of its PID opens at the moment of the call (the PID is free, or its NEW holder is readable),
+    `is_running()` is False — an object never "adopts" a later holder of its PID, whatever was asked in between.  The only
+    hole left is the one `C02_unknown_start_counterexample` exhibits (start unknown AND the new holder unreadable at that
+    very moment). -/
+theorem C02_not_running_after_gone_readable (b0 : Nat) (h : List Ev) (hh : HistOKb true h) (i : Nat) (o : PObj)
+    (ho : (run cfg (St.init b0) h).ps.objs[i]? = some o)
+    (hgone : ¬ Listed (run cfg (St.init b0) h).kern o)
+    (hread : StatOpens (run cfg (St.init b0) h).kern o.pid) :
+    (step cfg (run cfg (St.init b0) h) (.c (.isRunning i))).2 = .bool false := by
+  have hinv := run_inv2 cfg_good h _ (HistOKb.of_none_test cfg_none_test hh) (init_inv2 cfg.clk (BtOK.of_none_test cfg_none_test b0))
+  rw [step_isRunning_out cfg _ ho, isRunning_false_readable cfg_good _ hinv.kern.stamp hinv.ps.boot_nz
+    (hinv.ps.objs o (List.mem_of_getElem? ho)) hgone hread]
+
+/-- **C02_eq_any_readability.**  After ANY history with unreadable phases, for ANY two objects: when `==` answers True
+    the two have the same PID, hash alike, and — as soon as one of them was built while its stat file opened (has a
+    start time; `C02_unknown_start_meaning` is the converse reading) — were built for the same process start.  So no
+    object of a later holder of the PID ever equals an object of an earlier one, unless BOTH were built blind. -/
+theorem C02_eq_any_readability (b0 : Nat) (h : List Ev) (hh : HistOKb true h) (i j : Nat) (a b : PObj)
+    (ha : (run cfg (St.init b0) h).ps.objs[i]? = some a) (hb : (run cfg (St.init b0) h).ps.objs[j]? = some b)
+    (he : (step cfg (run cfg (St.init b0) h) (.c (.eq i j))).2 = .bool true) :
+    a.pid = b.pid
+    ∧ (step cfg (run cfg (St.init b0) h) (.c (.hash i))).2 = (step cfg (run cfg (St.init b0) h) (.c (.hash j))).2
+    ∧ (a.ident ≠ none ∨ b.ident ≠ none → SameIncarnation a b) := by
+  have hinv := run_inv2 cfg_good h _ (HistOKb.of_none_test cfg_none_test hh) (init_inv2 cfg.clk (BtOK.of_none_test cfg_none_test b0))
+  rw [step_eq_out cfg _ ha hb] at he
+  have he' : (a.pid == b.pid && a.ident == b.ident) = true := by simpa using he
+  obtain ⟨hp, hi, hg⟩ := eq_true_shape (hinv.ps.objs a (List.mem_of_getElem? ha)) (hinv.ps.objs b (List.mem_of_getElem? hb)) he'
+  refine ⟨hp, ?_, fun hk => ⟨hp, hg hk⟩⟩
+  rw [step_hash_out cfg _ ha, step_hash_out cfg _ hb, hp, hi]
+
+/-- **C02_object_constant_any_readability.**  "Not on any other psutil call made in between", over histories with
+    unreadable phases: NO event — kernel event or psutil call of any kind, `create_time()` included — changes the PID,
+    the identity `(pid, create time | None)` (hence the answers of `==` and `hash()`) or the ghost of an existing
+    object; an identity left incomplete at construction stays incomplete. -/
+theorem C02_object_constant_any_readability (b0 : Nat) (h : List Ev) (hh : HistOKb true h) (ev : Ev) (j : Nat) (o : PObj)
+    (ho : (run cfg (St.init b0) h).ps.objs[j]? = some o) :
+    ∃ o', (step cfg (run cfg (St.init b0) h) ev).1.ps.objs[j]? = some o'
+      ∧ o'.pid = o.pid ∧ o'.ident = o.ident ∧ o'.ghost = o.ghost := by
+  have hinv := run_inv2 cfg_good h _ (HistOKb.of_none_test cfg_none_test hh) (init_inv2 cfg.clk (BtOK.of_none_test cfg_none_test b0))
+  obtain ⟨o', ho', hs⟩ := step_same cfg_good _ ev hinv j o ho
+  exact ⟨o', ho', hs.pid, hs.ident, hs.ghost⟩
+
+/-- the history these clauses were added for (non-vacuity): PID 7's stat is unreadable while the object is built, the
+    process is reaped, PID 7 goes to another process whose stat IS readable, `create_time()` is asked (it answers with
+    the NEW holder's start; `_ident` stays `(7, None)`), a second object is built for the new holder: the first object
+    is not running, the two are unequal -/
+example :
+    let h : List Ev := [.k (.spawn 7), .k (.hide 7 true), .c (.newObj 7), .k (.reap 7), .k (.spawn 7),
+                        .k (.hide 7 false), .c (.createTime 0), .c (.newObj 7)]
+    HistOKb true h
+    ∧ (run cfg (St.init 1000) h).ps.objs[0]? = some ⟨7, none, some (1 + cfg.clk * 1000), false, false, 0⟩
+    ∧ statOpensB (run cfg (St.init 1000) h).kern 7 = true ∧ listedB (run cfg (St.init 1000) h).kern ⟨7, none, none, false, false, 0⟩ = false
+    ∧ (step cfg (run cfg (St.init 1000) h) (.c (.isRunning 0))).2 = .bool false
+    ∧ (step cfg (run cfg (St.init 1000) h) (.c (.eq 0 1))).2 = .bool false := by decide
 
 /-! ## Transient failures of the read of `/proc/pid/stat` (seeded round 5; Model/C02Fault.lean, Spec/C02Fault.lean)
 
